@@ -219,27 +219,14 @@ def check(prog, ctx):
                '; '.join(p for p in probs if 'sign comparison' in p), line=loop['l'])
     giveup = [o for o in done if o.kind == 'exit']
     ctx.decide('C02.c', 'give-up-exit', fn, len(giveup) == 1, 'no branch applies -> diagnostic exit (classified in C10)', 'give-up exits: %d' % len(giveup))
-    # ---- C02.e stopping
-    okres = False
-    detail = 'previous-iterate variable not found'
-    if not kres:
-        okres = True
-        detail = 'no variable carries a previous iterate into the stopping test'
-    elif len(kres) == 1:
-        v = init[kres[0]]
-        okres = isinstance(v, sp.Basic) and v.is_number and abs(float(v)) >= 1e50
-        detail = '`%s` starts at %s' % (ents[kres[0]], v)
-    else:
-        # a non-constant start (e.g. an end of the bracket) lets the test fire immediately
-        cands = [k for k in ents if k not in (kx1, kx2, kf1, kf2) and init.get(k) is not None and k != sx.counter_key(loop)]
-        if cands:
-            detail = 'previous-iterate variable `%s` starts at %s' % (ents[cands[0]], init[cands[0]])
-    ctx.decide('C02.e', 'sentinel', fn, okres, 'the previous-iterate variable starts at a constant sentinel: ' + detail,
-               'the stopping test can fire in the first iteration: ' + detail + ' (a point next to that value is returned without any convergence)',
-               witness={'reproducer': 'x^3-0.5 on [1e-3,100], accuracy 1e-3 returns 0.0018 instead of 0.7937'} if not okres else None)
     rets = [o for o in done if o.kind == 'return']
     zero_ret = any(isinstance(o.state.conds[-1], sp.Equality) and o.state.conds[-1].rhs == 0 and is_zero(sp.simplify(o.value - x4)) for o in rets if o.state.conds[n0:])
-    acc_rets = [o for o in rets if any(isinstance(c_, (sp.Lt, sp.Le)) and c_.rhs == acc for c_ in o.state.conds[n0:])]
+    def flat(cs):
+        out = []
+        for c_ in cs:
+            out += list(c_.args) if isinstance(c_, sp.And) else [c_]
+        return out
+    acc_rets = [o for o in rets if any(isinstance(c_, (sp.Lt, sp.Le)) and c_.rhs == acc for c_ in flat(o.state.conds[n0:]))]
     ctx.decide('C02.e', 'stopping-test', fn, bool(acc_rets) and zero_ret, 'the loop returns on a distance test against xAccuracy and on an exact zero f(x4) == 0 (returning x4)',
                'stopping test not recognised (returning paths that compare a distance with xAccuracy: %d, exact-zero return ok=%s)' % (len(acc_rets), zero_ret))
     # ---- C02.f what the accepting test certifies
@@ -250,9 +237,10 @@ def check(prog, ctx):
     # maintains is the bracket (x1,x2), f1 f2 < 0 (C02.c).
     def bracket_of(state):
         return state.env.get(kx1), state.env.get(kx2)
+    certified_all = bool(acc_rets)
     for n_, o in enumerate(acc_rets):
         inst = 'accuracy-certificate' if len(acc_rets) == 1 else 'accuracy-certificate#%d' % n_
-        tests = [c_ for c_ in o.state.conds[n0:] if isinstance(c_, (sp.Lt, sp.Le)) and c_.rhs == acc]
+        tests = [c_ for c_ in flat(o.state.conds[n0:]) if isinstance(c_, (sp.Lt, sp.Le)) and c_.rhs == acc]
         b1, b2 = bracket_of(o.state)
         pairs = [(x1, x2)] + ([(b1, b2)] if isinstance(b1, sp.Basic) and isinstance(b2, sp.Basic) else [])
         inside = lambda v_, u_, w_: any(is_zero(sp.simplify(v_ - t_)) for t_ in (u_, w_)) or \
@@ -271,6 +259,8 @@ def check(prog, ctx):
                 carried = [p_.env.get(k_) for p_ in live]
                 if carried and all(isinstance(t_, sp.Basic) and is_zero(sp.simplify(t_ - x4)) for t_ in carried) and same_dist(d_, x4, v_):
                     succ = str(v_)
+        if not cert:
+            certified_all = False
         if cert:
             ctx.holds('C02.f', inst, fn, cert, line=loop['l'])
         elif succ:
@@ -282,3 +272,24 @@ def check(prog, ctx):
                                   'test': str(tests[0]) if tests else None}, line=loop['l'])
         else:
             ctx.undecided('C02.f', inst, fn, 'accepting test %s: neither a bound on the maintained bracket nor a comparison of successive iterates' % [str(t_)[:120] for t_ in tests], line=loop['l'])
+    # ---- C02.e stopping
+    okres = False
+    detail = 'previous-iterate variable not found'
+    if not kres:
+        okres = True
+        detail = 'no variable carries a previous iterate into the stopping test'
+    elif len(kres) == 1:
+        v = init[kres[0]]
+        okres = isinstance(v, sp.Basic) and v.is_number and abs(float(v)) >= 1e50
+        detail = '`%s` starts at %s' % (ents[kres[0]], v)
+    else:
+        # a non-constant start (e.g. an end of the bracket) lets the test fire immediately
+        cands = [k for k in ents if k not in (kx1, kx2, kf1, kf2) and init.get(k) is not None and k != sx.counter_key(loop)]
+        if cands:
+            detail = 'previous-iterate variable `%s` starts at %s' % (ents[cands[0]], init[cands[0]])
+    if not okres and certified_all:
+        okres = True
+        detail += '; an early agreement cannot accept on its own: every accepting path also requires the bracket to be narrower than the accuracy'
+    ctx.decide('C02.e', 'sentinel', fn, okres, 'the previous-iterate variable starts at a constant sentinel: ' + detail,
+               'the stopping test can fire in the first iteration: ' + detail + ' (a point next to that value is returned without any convergence)',
+               witness={'reproducer': 'x^3-0.5 on [1e-3,100], accuracy 1e-3 returns 0.0018 instead of 0.7937'} if not okres else None)
